@@ -5,6 +5,7 @@ import (
 	"bytes"
 	"encoding/binary"
 	"fmt"
+	"github.com/foxboron/go-uefi/efi/device"
 	"strings"
 	"testing"
 	"unicode/utf16"
@@ -283,6 +284,24 @@ func checkCase(c Case) error {
 	var es2 efivar.Efistring
 	if err := es2.Unmarshal(bytes.NewBuffer(append([]byte{}, unterminated...))); err == nil {
 		return fmt.Errorf("Efistring.Unmarshal of %q without terminator returned %q and no error", c.S, string(es2))
+	}
+	// the same string as the name of a file-path node (the structure that carries such strings): with the terminator
+	// the name comes back, without it decoding is an error there too
+	if len(want)+4 <= 0xffff {
+		node := func(name []byte) []byte {
+			n := []byte{4, 4, byte(len(name) + 4), byte((len(name) + 4) >> 8)}
+			return append(append(n, name...), 0x7f, 0xff, 4, 0)
+		}
+		ps, err := device.ParseDevicePath(bytes.NewReader(node(want)))
+		if err != nil || len(ps) == 0 {
+			return fmt.Errorf("file-path node named %q: ParseDevicePath: %d nodes, %v", c.S, len(ps), err)
+		}
+		if f, ok := ps[0].(device.FileTypeMediaDevicePath); !ok || f.PathName != c.S {
+			return fmt.Errorf("file-path node named %q decodes to %#v", c.S, ps[0])
+		}
+		if ps, err := device.ParseDevicePath(bytes.NewReader(node(unterminated))); err == nil {
+			return fmt.Errorf("file-path node whose name %q lacks the terminator decodes without error to %#v", c.S, ps)
+		}
 	}
 	return nil
 }
